@@ -34,6 +34,13 @@ def run(ctx):
     modes(ctx, prog, T)
     s13_3(ctx, prog)
     s13_4(ctx, prog, T)
+    # S13.6 an identifier becomes a function application only in front of something that starts an operand (`(`, a literal, another
+    # identifier); in front of anything else it is a plain variable, so that `a !b`, `a -b`, `a )` are not given the meaning `a(..)`.
+    # This is the C09 R9.5 classification (decided against the specification, not the code's own predicate), reported here because
+    # widening the call form is a way of giving juxtaposed operands a meaning.
+    from rules.c09 import r95
+    from rules.c05 import _Renamed
+    r95(_Renamed(ctx, 'S13.6'), prog)
 
 
 def modes(ctx, prog, T):
